@@ -4,6 +4,7 @@ package main
 
 import (
 	"fmt"
+	"hash/fnv"
 	"go/ast"
 	"go/constant"
 	"go/token"
@@ -146,7 +147,23 @@ func (ex *Exec) ectx(f *Frame, st *State) *ExprCtx {
 	if f.fn.Pkg != nil {
 		pkg = f.fn.Pkg.Pkg
 	}
-	return &ExprCtx{w: ex.w, cs: ex.prog.CS, st: st, old: ex.entry, vars: vars, pkg: pkg}
+	return &ExprCtx{w: ex.w, cs: ex.prog.CS, st: st, old: ex.entry, vars: vars, pkg: pkg, fnName: ex.prog.funcName, global: ex.globalTV(f, st)}
+}
+
+// globalTV resolves package-level variables in contract expressions.
+func (ex *Exec) globalTV(f *Frame, st *State) func(pkg *types.Package, name string) (TV, bool) {
+	return func(pkg *types.Package, name string) (TV, bool) {
+		sp := ex.prog.SSA.Package(pkg)
+		if sp == nil {
+			return TV{}, false
+		}
+		g, ok := sp.Members[name].(*ssa.Global)
+		if !ok {
+			return TV{}, false
+		}
+		p := ex.val(f, st, g).(VPtr)
+		return TV{V: ex.w.load(st, p), T: under(g.Type()).(*types.Pointer).Elem()}, true
+	}
 }
 
 // oblige records a proof obligation: under st.pc, goal holds. The goal is then
@@ -253,6 +270,33 @@ func runFunction(prog *Prog, name string, fn *ssa.Function, con *Contract) *Exec
 	}
 	if con.NoPaths || len(fn.Blocks) == 0 {
 		return ex
+	}
+	// frame: the number of static call sites of the listed callees is fixed
+	for _, callee := range sortedKeys(con.CallSites) {
+		n := 0
+		for _, b := range fn.Blocks {
+			for _, in := range b.Instrs {
+				if ci, ok := in.(ssa.CallInstruction); ok {
+					nm := prog.calleeName(ci.Common())
+					if k := strings.LastIndex(nm, "."); k >= 0 {
+						nm = nm[k+1:]
+					}
+					if nm == callee {
+						n++
+					}
+				}
+			}
+		}
+		o := &Obligation{Name: fmt.Sprintf("%s#callsites:%s", name, callee), Class: "frame", Fn: name, Goal: "true",
+			Desc: fmt.Sprintf("exactly %d call sites of %s (found %d): every one is covered by an assertion", con.CallSites[callee], callee, n)}
+		o.Pos, _ = ex.posOf(fn.Pos())
+		if n == con.CallSites[callee] {
+			o.Res = SolveResult{Status: "unsat", Backend: "syntactic"}
+		} else {
+			o.Goal = "false"
+			o.Res = SolveResult{Status: "sat", Backend: "syntactic", Output: o.Desc}
+		}
+		ex.obls = append(ex.obls, o)
 	}
 	ex.stack = []*ssa.Function{fn}
 	ex.runFrom(f, st, fn.Blocks[0], 0, nil)
@@ -615,6 +659,14 @@ func (ex *Exec) enterBlock(f *Frame, st *State, b, prev *ssa.BasicBlock) bool {
 		for a := range st.arrs {
 			st.arrs[a] = ex.w.freshArrState(a.Elem, a.Sym)
 		}
+	} else if ld.arrs {
+		// the loop only writes elements of scalar slices: backing arrays of
+		// scalars change, nothing else does
+		for a := range st.arrs {
+			if _, ok := scalarWidth(a.Elem); ok {
+				st.arrs[a] = ex.w.freshArrState(a.Elem, a.Sym)
+			}
+		}
 	}
 	// assume invariants
 	for _, a := range autos {
@@ -737,6 +789,7 @@ func (ex *Exec) step(f *Frame, st *State, in ssa.Instruction) bool {
 	case *ssa.Alloc:
 		et := under(x.Type()).(*types.Pointer).Elem()
 		o := w.newObj(et, x.Comment)
+		o.Local = true // a fresh allocation: distinct from every other object
 		st.mem[o] = w.toMem(st, w.zero(st, et), nil)
 		f.regs[x] = VPtr{Root: o, Nil: "false", Origin: OrigKnown}
 		if x.Comment != "" && !strings.Contains(x.Comment, " ") && !strings.Contains(x.Comment, ".") {
@@ -1116,7 +1169,19 @@ func (ex *Exec) unop(f *Frame, st *State, x *ssa.UnOp) bool {
 		}
 	case token.ARROW:
 		w.note("channel receive (outside the subset)")
-		f.regs[x] = w.freshReg(st, x.Type(), "recv", OrigMem)
+		rv := w.freshReg(st, x.Type(), "recv", OrigMem)
+		if f.con != nil && f.con.RecvNonNil {
+			if t, ok := rv.(VTuple); ok && len(t.F) == 2 {
+				if iv, ok := t.F[0].(VIface); ok {
+					if okb, ok := t.F[1].(VBool); ok {
+						st.assume(mkImp(okb.T, mkNot(mkEq(iv.U, "nil_iface"))))
+					}
+				}
+			} else if iv, ok := rv.(VIface); ok {
+				st.assume(mkNot(mkEq(iv.U, "nil_iface")))
+			}
+		}
+		f.regs[x] = rv
 	default:
 		f.regs[x] = w.freshReg(st, x.Type(), "unop", OrigCall)
 	}
@@ -1412,6 +1477,14 @@ func (ex *Exec) initGlobal(st *State, g *ssa.Global, o *Obj) {
 				name := "glob_" + sanitize(g.Pkg.Pkg.Name()+"_"+g.Name())
 				u := ex.w.st.declare(name, nil, sortU)
 				st.assume(mkNot(mkEq(u, "nil_iface")))
+				// a sentinel is not an error value created later by fmt.Errorf / errors.New
+				fe := ex.w.st.declare("sf_FreshErr", []string{sortU}, sortBool)
+				st.assume(mkNot(app(fe, u)))
+				// distinct sentinels are distinct values
+				gid := ex.w.st.declare("glob_id", []string{sortU}, bvSort(64))
+				h := fnv.New64a()
+				h.Write([]byte(name))
+				st.assume(mkEq(app(gid, u), bvLit(h.Sum64(), 64)))
 				st.mem[o] = VIface{U: u}
 				return
 			}
